@@ -42,7 +42,7 @@ var jsonLayouts = []geom.Layout{geom.XY, geom.XYZ, geom.XYZM, geom.XYM, geom.Lay
 
 func genG(t *rapid.T, depth int) *model.G {
 	return gen.Tree(t, gen.TreeOpts{
-		Layouts: jsonLayouts, Floats: gen.Finite, MaxDepth: depth, MaxParts: 3, MaxPts: 4, MixLayouts: true, PEmpty: 15, LongPct: 1, LongMax: 200,
+		Layouts: jsonLayouts, Floats: gen.Finite, MaxDepth: depth, MaxParts: 3, MaxPts: 4, MixLayouts: true, PEmpty: 15, LongPct: 1, LongMax: 200, SRID: gen.SRIDs,
 	})
 }
 
@@ -252,6 +252,15 @@ func propG(c GCase) error {
 			var og geom.T
 			if err := geojson.Unmarshal([]byte(o), &og); err != nil {
 				return fmt.Errorf("geojson.Unmarshal(%s): %v", o, err)
+			}
+		}
+		// ... nor a sibling of the case itself (same structure and emptiness, other ordinates)
+		if sg, err := model.Build(g.Mapped(func(x float64) float64 { return 2*x + 1 }), model.RouteFlat); err == nil {
+			if sb, err := geojson.Marshal(sg); err == nil {
+				for i := 0; i < 2; i++ {
+					var og geom.T
+					_ = geojson.Unmarshal(sb, &og)
+				}
 			}
 		}
 		bmAgain, err := model.FromGeom(back)
